@@ -137,9 +137,25 @@ Core(x) == WUn(x) \cup WParen(x) \cup WAttr(x)
                  NTpl("q", <<NTIf(0, x, NTpl("q", <<NTLit("a")>>), NNone)>>),
                  NTpl("q", <<NTFor(0, 0, "v", x, NTpl("q", <<NInterp(0, NVar("v"))>>))>>)}
 
+\* heredoc templates (only generated when Level2 = "heredoc"): 1-3 lines with varying indentation,
+\* literal and interpolated parts, blank lines; in plain and flush form
+HLines(x) ==
+    {<<NHLine(0, <<NTLit("a")>>)>>,
+     <<NHLine(2, <<NTLit("a")>>), NHLine(4, <<NTLit("b c")>>)>>,
+     <<NHLine(2, <<NTLit("a"), NInterp(0, x)>>), NHLine(1, <<NTLit("b")>>)>>,
+     <<NHLine(0, <<NInterp(0, x)>>)>>,
+     <<NHLine(2, <<NInterp(0, x), NTLit("a")>>), NHLine(3, <<NTLit("x")>>)>>,
+     <<NHLine(3, <<NTLit("a")>>), NHLine(2, <<>>), NHLine(3, <<NTLit("b")>>)>>,
+     <<NHLine(2, <<NTLit("a")>>), NHLine(0, <<>>), NHLine(4, <<NInterp(0, x), NInterp(0, NVar("s"))>>)>>,
+     <<NHLine(1, <<NTLit("x"), NInterp(0, x), NTLit("b c")>>)>>,
+     <<>>}
+HLeaves == {NTpl(k, ls) : k \in {"h", "hf"}, ls \in UNION {HLines(x) : x \in {NVar("s"), NVar("n1"), NVar("nul"), NVar("l"), NBin("+", NVar("n1"), NVar("n2"))}}}
+WHere(x) == {NTuple(<<x>>), NTuple(<<NVar("s"), x>>), NCall("upper", FALSE, <<x>>), NCall("cat", FALSE, <<x, NVar("s")>>),
+             NObject(<<NKeyId("a"), x>>), NCond(NVar("b"), x, NVar("s")), NBin("==", x, NVar("s")), NIndex(NVar("m"), x)}
+
 Result(x) == Eval(x, Scope)
 
-Init == /\ e \in Leaves
+Init == /\ e \in (IF Level2 = "heredoc" THEN HLeaves ELSE Leaves)
         /\ d = 0
         /\ pred = Result(e)
         /\ last = "leaf"
@@ -151,7 +167,7 @@ Step(fam, S) == /\ e' \in S
                 /\ last' = fam
                 /\ fv' = FreeVars(e')
 
-Full == d = 0 \/ Level2 = "all"
+Full == (d = 0 \/ Level2 = "all") /\ Level2 # "heredoc"
 
 Next ==
     /\ d < MaxD
@@ -171,7 +187,8 @@ Next ==
        \/ (Full /\ Step("for", WFor(e)))
        \/ (Full /\ Step("call", WCall(e)))
        \/ (Full /\ Step("tpl", WTpl(e)))
-       \/ (~Full /\ Step("core", Core(e)))
+       \/ (~Full /\ Level2 # "heredoc" /\ Step("core", Core(e)))
+       \/ (Level2 = "heredoc" /\ Step("heredoc-in", WHere(e)))
 
 Spec == Init /\ [][Next]_vars
 
